@@ -582,6 +582,16 @@ impl Memfs {
     /// Creates the given directory and any parent directories needed with the given mode
     ///
     /// * path is required to be abs already
+    // Check that the path is a directory and take the snapshot of its entries under one read
+    // guard so that a listing can't observe a state in between two changes made by another thread
+    fn _dir_entries<T: AsRef<Path>>(&self, path: T) -> RvResult<Entries> {
+        let guard = self.read_guard();
+        if !self._is_dir(&guard, &path) {
+            return Err(PathError::is_not_dir(&path).into());
+        }
+        self._entries(&guard, path)
+    }
+
     fn _mkdir_m(&self, guard: &mut MemfsGuard, abs: &Path, mode: Option<u32>) -> RvResult<()> {
         let mut path = PathBuf::new();
         for component in abs.components() {
@@ -734,10 +744,7 @@ impl VirtualFileSystem for Memfs {
     /// ```
     fn all_dirs<T: AsRef<Path>>(&self, path: T) -> RvResult<Vec<PathBuf>> {
         let mut paths: Vec<PathBuf> = vec![];
-        if !self.is_dir(&path) {
-            return Err(PathError::is_not_dir(&path).into());
-        }
-        for entry in self.entries(path)?.min_depth(1).sort_by_name().dirs() {
+        for entry in self._dir_entries(path)?.min_depth(1).sort_by_name().dirs() {
             let entry = entry?;
             paths.push(entry.path_buf());
         }
@@ -767,10 +774,7 @@ impl VirtualFileSystem for Memfs {
     /// ```
     fn all_files<T: AsRef<Path>>(&self, path: T) -> RvResult<Vec<PathBuf>> {
         let mut paths: Vec<PathBuf> = vec![];
-        if !self.is_dir(&path) {
-            return Err(PathError::is_not_dir(&path).into());
-        }
-        for entry in self.entries(path)?.min_depth(1).sort_by_name().files() {
+        for entry in self._dir_entries(path)?.min_depth(1).sort_by_name().files() {
             let entry = entry?;
             paths.push(entry.path_buf());
         }
@@ -802,10 +806,7 @@ impl VirtualFileSystem for Memfs {
     /// ```
     fn all_paths<T: AsRef<Path>>(&self, path: T) -> RvResult<Vec<PathBuf>> {
         let mut paths: Vec<PathBuf> = vec![];
-        if !self.is_dir(&path) {
-            return Err(PathError::is_not_dir(&path).into());
-        }
-        for entry in self.entries(path)?.min_depth(1).sort_by_name() {
+        for entry in self._dir_entries(path)?.min_depth(1).sort_by_name() {
             let entry = entry?;
             paths.push(entry.path_buf());
         }
@@ -1221,10 +1222,7 @@ impl VirtualFileSystem for Memfs {
     /// ```
     fn dirs<T: AsRef<Path>>(&self, path: T) -> RvResult<Vec<PathBuf>> {
         let mut paths: Vec<PathBuf> = vec![];
-        if !self.is_dir(&path) {
-            return Err(PathError::is_not_dir(&path).into());
-        }
-        for entry in self.entries(path)?.min_depth(1).max_depth(1).sort_by_name().dirs() {
+        for entry in self._dir_entries(path)?.min_depth(1).max_depth(1).sort_by_name().dirs() {
             let entry = entry?;
             paths.push(entry.path_buf());
         }
@@ -1316,10 +1314,7 @@ impl VirtualFileSystem for Memfs {
     /// ```
     fn files<T: AsRef<Path>>(&self, path: T) -> RvResult<Vec<PathBuf>> {
         let mut paths: Vec<PathBuf> = vec![];
-        if !self.is_dir(&path) {
-            return Err(PathError::is_not_dir(&path).into());
-        }
-        for entry in self.entries(path)?.min_depth(1).max_depth(1).sort_by_name().files() {
+        for entry in self._dir_entries(path)?.min_depth(1).max_depth(1).sort_by_name().files() {
             let entry = entry?;
             paths.push(entry.path_buf());
         }
@@ -1798,10 +1793,7 @@ impl VirtualFileSystem for Memfs {
     /// ```
     fn paths<T: AsRef<Path>>(&self, path: T) -> RvResult<Vec<PathBuf>> {
         let mut paths: Vec<PathBuf> = vec![];
-        if !self.is_dir(&path) {
-            return Err(PathError::is_not_dir(&path).into());
-        }
-        for entry in self.entries(path)?.min_depth(1).max_depth(1).sort_by_name() {
+        for entry in self._dir_entries(path)?.min_depth(1).max_depth(1).sort_by_name() {
             let entry = entry?;
             paths.push(entry.path_buf());
         }
